@@ -23,6 +23,16 @@ theorem eval_mono (g s : EC.Env) (e : EC.PExpr) (v : EC.Val)
     (h : EC.eval g e = .ok v) : EC.eval s e = .ok v :=
   mono_eval _ g s hext e v h
 
+/-- [W7] the same for every outcome but the evaluator's own ValueError (which is what an unknown name gives): an expression that
+    leaves the model's value domain under partial knowledge (`floatResult`: `/`, `**` with a negative exponent), or on which a
+    Python operation raises, does so under every completion — more knowledge never turns a float into a folded value -/
+theorem eval_mono_outcome (g s : EC.Env) (e : EC.PExpr) (er : EC.Err) (hne : er ≠ .value)
+    (hext : ∀ x w, g.lookup x = some (some w) → s.lookup x = some (some w))
+    (h : EC.eval g e = .error er) : EC.eval s e = .error er := by
+  rcases amono_eval _ g s hext e with h1 | h1
+  · rw [EC.eval] at h; rw [h] at h1; cases h1; exact absurd rfl hne
+  · rw [EC.eval, h1]; exact h
+
 /-- a value folded without any environment is the value at every program point -/
 theorem fold_namefree_sound (e : EC.PExpr) (v : EC.Val) (h : EC.eval [] e = .ok v) (s : EC.Env) : EC.eval s e = .ok v :=
   eval_mono [] s e v (fun x w hx => by simp at hx) h
@@ -138,25 +148,25 @@ theorem param_shadow_needs_reset :
 theorem append_in_untaken_branch_counterexample :
     let p : List Node := [.bind "xs" (.list [1, 2]), .branches [[.append "xs" 3]], .obs "xs"]
     run 10 [5] p = some [.list [1, 2]] ∧ run 10 [5] (transpile p) = some [.list [1, 2, 3]] := by
-  simp [run, execList, execNode, transpile, foldList, foldNode, foldBranches, PState.bindStr, PState.known, Store.set, List.lookup]
+  simp [run, execList, execNode, transpile, foldList, foldNode, foldBranches, PState.bindStr, PState.known, CE.Store.set, List.lookup]
 
 /-- `for i in range(3): xs.append(7)`; the append is parsed once, executed three times -/
 theorem append_in_loop_counterexample :
     let p : List Node := [.bind "xs" (.list [1, 2]), .loop [.append "xs" 7], .obs "xs"]
     run 10 [3] p = some [.list [1, 2, 7, 7, 7]] ∧ run 10 [3] (transpile p) = some [.list [1, 2, 7]] := by
-  simp [run, execList, execNode, execTimes, transpile, foldList, foldNode, PState.bindStr, PState.known, Store.set, List.lookup]
+  simp [run, execList, execNode, execTimes, transpile, foldList, foldNode, PState.bindStr, PState.known, CE.Store.set, List.lookup]
 
 /-- `s = "ab"`; `if …: s = "abcd"`; `len(s)` — the branch is taken, the rebinding was forgotten when the block closed -/
 theorem rebind_in_taken_branch_counterexample :
     let p : List Node := [.bind "s" (.str "ab"), .branches [[.bind "s" (.str "abcd")]], .obs "s"]
     run 10 [0] p = some [.str "abcd"] ∧ run 10 [0] (transpile p) = some [.str "ab"] := by
-  simp [run, execList, execNode, transpile, foldList, foldNode, foldBranches, PState.bindStr, PState.known, Store.set, List.lookup]
+  simp [run, execList, execNode, transpile, foldList, foldNode, foldBranches, PState.bindStr, PState.known, CE.Store.set, List.lookup]
 
 /-- `while True:` body: `len(s)` then `s = s + "x"` — the second pass still sees the folded first value -/
 theorem main_loop_stale_counterexample :
     let p : List Node := [.bind "s" (.str "ab"), .mainLoop [.obs "s", .bindDyn "s" (.str "abx")]]
     run 10 [2] p = some [.str "ab", .str "abx"] ∧ run 10 [2] (transpile p) = some [.str "ab", .str "ab"] := by
-  simp [run, execList, execNode, execTimes, transpile, foldList, foldNode, PState.bindStr, PState.known, Store.set, List.lookup]
+  simp [run, execList, execNode, execTimes, transpile, foldList, foldNode, PState.bindStr, PState.known, CE.Store.set, List.lookup]
 
 /-- the property as stated (all scripts, all paths) does not hold of the transpiler -/
 theorem C03_statement_false : ¬ (∀ (prog : List Node) (fuel : Nat) (choices : List Nat),
@@ -173,6 +183,6 @@ example :
       .loop [.obs "xs", .append "ys" 1], .branches [[.obs "s"], [.bind "t" (.str "q")]], .bind "s" (.str "abc"), .mainLoop [.obs "s", .obs "xs", .append "ys" 2]]
     FoldSafe p = true ∧ run 20 [2, 0, 2] (transpile p) = some [.list [1, 2, 3], .list [1, 2, 3], .str "ab", .str "abc", .list [1, 2, 3], .str "abc", .list [1, 2, 3]] := by
   refine ⟨by decide, ?_⟩
-  simp [run, execList, execNode, execTimes, transpile, foldList, foldNode, foldBranches, PState.bindStr, PState.known, Store.set, List.lookup]
+  simp [run, execList, execNode, execTimes, transpile, foldList, foldNode, foldBranches, PState.bindStr, PState.known, CE.Store.set, List.lookup]
 
 end Reduino.Props.C03
